@@ -93,7 +93,7 @@ let () =
           | Some s' ->
               ast := s';
               let a = Stdlib.List.nth (ath s') (Stdlib.List.length (ath s') - 1) in
-              if ino (a_desc a) <> int_of_string d then
+              if d <> "-" && ino (a_desc a) <> int_of_string d then
                 fail (Printf.sprintf "creation got record d%s, the allocator model (free list first, LIFO) gives d%d" d (ino (a_desc a)))
               else if k <> "-" && ino (a_stk a) <> int_of_string k then
                 fail (Printf.sprintf "creation got stack s%s, the allocator model gives s%d" k (ino (a_stk a)))
